@@ -65,8 +65,8 @@ func verifC15(secondBatch bool) {
 				x.released++
 				x.relErr = err
 			},
-			Get:    func(h hash.Event) dag.Event { return connected[h] },
-			Exists: func(h hash.Event) bool { _, ok := connected[h]; return ok },
+			Get:          func(h hash.Event) dag.Event { return connected[h] },
+			Exists:       func(h hash.Event) bool { _, ok := connected[h]; return ok },
 			CheckParents: func(e dag.Event, parents dag.Events) error { return nil },
 			CheckParentless: func(e dag.Event, checked func(error)) {
 				find(e).checked = checked // the check completes later, in an order chosen by the environment
